@@ -22,7 +22,7 @@ ASSUMPTIONS = ["mutators are never interleaved with an open messages_*() generat
                "edits through messages_abs() never change `time`; invalidate_* is only called when the other view is fresh",
                "an operation that raises identically on the object and on its clean replica ends the history as inconclusive"]
 TIERS = {"quick": dict(shards=8, examples=500, alt_ppqn=[480], alt_shards=2),
-         "thorough": dict(size=2, shards=16, examples=8000, alt_ppqn=[480, 7, 1000], alt_shards=4)}
+         "thorough": dict(size=2, shards=16, examples=8000, alt_ppqn=[480, 7, 1000], alt_shards=2)}
 
 ABS_OPS = {"add_abs", "cutoff", "merge", "quantise", "qnl", "qan", "it_abs", "read_abs"}
 REL_OPS = {"add_rel", "concatenate", "normalise", "pad", "set_channel", "scale", "scale_down", "transpose", "it_rel", "read_rel"}
